@@ -5,7 +5,7 @@ import numpy as np
 import impl, gen, evalutil as E
 from common import same_value
 
-RULE = ("half of the cases on long-lived evaluators that see the four scenarios in random order; random edge-case handlers (per metric 4 scenario values drawn without replacement from the 5 possible results, "
+RULE = ("the scenarios also through other public forms (handler objects built positionally in the documented order; panoptic_evaluate called directly with keyword arguments); half of the cases on long-lived evaluators that see the four scenarios in random order; random edge-case handlers (per metric 4 scenario values drawn without replacement from the 5 possible results, "
         "random empty-list value) x scenario {no instances, empty prediction, empty reference, instances without a match} "
         "x input type {SEMANTIC, UNMATCHED, MATCHED} x metric selections; plus tp>0 cases under two different handlers; "
         "non-trivial = handler with pairwise distinct scenario values for some evaluated metric and a zero-TP scenario")
@@ -185,7 +185,85 @@ def single_group_cases(ctx, n):
             ctx.violation("C08 violated (single-instance group): " + fails[0], inp, impl=s, key={"kind": "zero-tp"})
 
 
+def zero_tp_fails(s, cfg, scen):
+    """the property's demands on one result summary in a zero-TP scenario"""
+    h = {m: z for m, z in cfg["handler"]["table"]}
+    fails = []
+    if s["tp"] != 0:
+        fails.append(f"tp={s['tp']} in scenario {scen}")
+    if s["fp"] != s["num_pred_instances"] or s["fn"] != s["num_ref_instances"]:
+        fails.append(f"fp/fn {s['fp']},{s['fn']} are not the instance counts {s['num_pred_instances']},{s['num_ref_instances']}")
+    for m in cfg["eval_metrics"]:
+        sqn, stdn, _ = E.NAMES[m]
+        want = E.edge_py(h[m][scen])
+        if isinstance(s[sqn], str) or not same_value(s[sqn], want, exact=True):
+            fails.append(f"{sqn} = {s[sqn]}, but the handler prescribes {h[m][scen]} for {scen}")
+        want_std = E.edge_py(cfg["handler"]["empty_list_std"])
+        if isinstance(s[stdn], str) or not same_value(s[stdn], want_std, exact=True):
+            fails.append(f"{stdn} = {s[stdn]}, but the configured empty-list value is {cfg['handler']['empty_list_std']}")
+    return fails
+
+
+def handler_positional(h):
+    """the same handler built with positional arguments in the documented order
+    (default_result, no_instances_result, empty_prediction_result, empty_reference_result, normal)"""
+    from panoptica.utils.edge_case_handling import MetricZeroTPEdgeCaseHandling, EdgeCaseHandler
+    tbl = {}
+    for m, z in h["table"]:
+        tbl[impl.METRICS[m]] = MetricZeroTPEdgeCaseHandling(None, impl.EDGE[z["NO_INSTANCES"]], impl.EDGE[z["EMPTY_PRED"]],
+                                                            impl.EDGE[z["EMPTY_REF"]], impl.EDGE[z["NORMAL"]])
+    return EdgeCaseHandler(tbl, impl.EDGE[h["empty_list_std"]])
+
+
+def entry_form_case(ctx, pred, ref, cfg, scen, form, src):
+    """the same scenarios through other public forms: handler objects built positionally, and the function
+    panoptic_evaluate called directly with keyword arguments"""
+    from panoptica.panoptica_evaluator import panoptic_evaluate
+    from panoptica import Panoptica_Evaluator
+    from panoptica.utils.processing_pair import SemanticPair, UnmatchedInstancePair, MatchedInstancePair
+    from panoptica import ConnectedComponentsInstanceApproximator
+    inp = {"shape": list(pred.shape), "pred": gen.arr_json(pred), "ref": gen.arr_json(ref), "cfg": cfg, "scenario": scen, "form": form, "src": src}
+    ctx.case(inp, True)
+    ctx.count("entry_form." + form)
+    hnd = handler_positional(cfg["handler"]) if "positional" in form else impl.mk_handler(cfg["handler"])
+    metrics = [impl.METRICS[m] for m in cfg["eval_metrics"]]
+    matcher = impl.mk_matcher(cfg["matcher"]) if cfg.get("matcher") else None
+    try:
+        with impl.quiet(), np.errstate(all="ignore"):
+            if "function" in form:
+                pair = {"SEMANTIC": SemanticPair, "UNMATCHED": UnmatchedInstancePair, "MATCHED": MatchedInstancePair}[cfg["input"]](pred.copy(), ref.copy())
+                r, _ = panoptic_evaluate(pair, instance_approximator=ConnectedComponentsInstanceApproximator(), instance_matcher=matcher,
+                                         instance_metrics=metrics, global_metrics=[], edge_case_handler=hnd)
+            else:
+                ev = Panoptica_Evaluator(expected_input=impl.INPUT[cfg["input"]], instance_approximator=ConnectedComponentsInstanceApproximator(),
+                                         instance_matcher=matcher, edge_case_handler=hnd, instance_metrics=metrics, global_metrics=[])
+                r = ev.evaluate(pred.copy(), ref.copy())["ungrouped"][0]
+            s = impl.result_summary(r, cfg["eval_metrics"])
+    except Exception as e:
+        ctx.violation(f"evaluation ({form}) raised {type(e).__name__} in zero-TP scenario {scen}", inp, key={"kind": "raises"})
+        return
+    fails = zero_tp_fails(s, cfg, scen)
+    if fails:
+        ctx.violation(f"C08 violated ({form}): " + fails[0], inp, impl=s, key={"kind": "zero-tp"})
+
+
+def entry_form_cases(ctx, n):
+    rng = ctx.rng
+    for i in range(n):
+        it = rng.choice(["SEMANTIC", "UNMATCHED", "MATCHED"])
+        metrics = rng.sample(["IOU", "DSC", "RVD", "ASSD"], rng.randint(1, 4))
+        hnd = rand_handler(rng, metrics)
+        scen = rng.choice(["NO_INSTANCES", "EMPTY_PRED", "EMPTY_REF", "NORMAL"])
+        arrs = scenario_arrays(rng, scen, it)
+        if arrs is None:
+            continue
+        cfg = E.mk_cfg(it, metrics, matcher=E.naive("IOU", (1, 2)) if it != "MATCHED" else None, handler=hnd)
+        entry_form_case(ctx, arrs[0], arrs[1], cfg, scen, rng.choice(["evaluator+positional-handler", "function+keyword-handler", "function+positional-handler"]),
+                        f"form{i}")
+
+
 def run(ctx):
+    entry_form_cases(ctx, ctx.scale(150, 1500))
     single_group_cases(ctx, ctx.scale(40, 400))
     run_cases(ctx, ctx.scale(900, 9000), "rand")
 
@@ -196,6 +274,10 @@ def search(ctx):
 
 def replay(ctx, rec):
     i = rec["input"]
+    if i.get("form"):
+        entry_form_case(ctx, np.array(i["pred"], dtype=np.uint8).reshape(i["shape"]), np.array(i["ref"], dtype=np.uint8).reshape(i["shape"]),
+                        i["cfg"], i["scenario"], i["form"], "replay")
+        return
     if i.get("groups"):
         single_group_cases(ctx, 60)
         return
